@@ -266,6 +266,18 @@ Example C10_stale_heartbeat_repromotes :
 Proof. vm_compute. repeat split. Qed.
 Print Assumptions C10_stale_heartbeat_repromotes.
 
+(* ---- several groups per Manager ---- *)
+(* before 466d014 no interleaving was needed in a Manager with two groups: A's group is STANDBY_ALONE, a
+   heartbeat that carries only the OTHER group's status arrives ([ETouch]: peerNodeID is set), and from then on
+   this group ignores complete heartbeats.  HEAD re-discovers the peer. *)
+Example C10_other_group_heartbeat_refuted :
+  let es := to_standby_a ++ [EPeerLost A; ESend B; ETouch A 0; ESend B; EDeliver A 0; ESend B; EDeliver A 0] in
+  n_st (p_a (run BeforeRaceFixes cs_plain (init_pair cs_plain) es)) = StandbyAlone /\
+  n_pknown (p_a (run BeforeRaceFixes cs_plain (init_pair cs_plain) es)) = true /\
+  n_st (p_a (run Head cs_plain (init_pair cs_plain) es)) = Standby /\ no_touch es = false.
+Proof. vm_compute. repeat split. Qed.
+Print Assumptions C10_other_group_heartbeat_refuted.
+
 (* ==== every critical section one step (Fine.v): any number of Manager calls in progress ==== *)
 
 (* a call whose critical sections run without interruption is exactly the atomic handler of Model.v,
